@@ -117,6 +117,14 @@ def check(ctx: Ctx) -> None:
     # "the metadata log names existing superseded versions": nobody but the sanctioned owners deletes a metadata file
     from .c09 import r3 as c09_r3
     ctx.shared(c09_r3, "C09.R3", "C15.R11", "a second deleter of metadata versions removes files the metadata log still names")
+    # a table re-initialised over itself (recovery blind to page 2 of the listing) loses its whole history and restarts the numbering
+    from .c20 import r10_listing_exhaustive
+    r10_listing_exhaustive(ctx, "C15.R12")
+    # two commits validated against one base (an ETag that belongs to an unvalidated version) share a sequence number
+    from .c08 import r1 as c08_r1
+    ctx.shared(c08_r1, "C08.R1", "C15.R13", "the conditional pointer write is keyed to the validated version")
+    from .c19 import polling_break_double_check
+    polling_break_double_check(ctx, "C15.R14")
 
 
 def carried_keep_provenance(ctx: Ctx, rid: str = "C15.R10") -> None:
